@@ -8,9 +8,7 @@ type writeLock struct{}
 func (s *Entry) printOut(lvl Level, msg []byte) {
 	if w := s.findWriter(lvl); w != nil {
 		// if a target user-defined writer can be SetLevel, set it before writing.
-		if x, ok := w.(LevelSettable); ok {
-			x.SetLevel(lvl)
-		}
+		tellLevel(w, lvl)
 
 		n, err := w.Write(msg)
 		collectWrittenBytes(n)
